@@ -246,7 +246,14 @@ func (w *World) opPrune(n *Node, s *Step) {
 			}
 		}
 		// anywhere in the list, also in front of the cached ones
-		pr := SubRng(s.Seed^uint64(n.idx)*0x70c3, "prune-mix")
+		ps := s.Seed ^ uint64(n.idx)*0x70c3
+		for _, pk := range s.Picks {
+			ps = mix64(ps ^ uint64(pk))
+		}
+		pr := SubRng(ps, "prune-mix")
+		if pr.Bool() {
+			hs = append(hs, hs[0]) // and one cached leaf named twice
+		}
 		pr.Shuffle(len(hs), func(i, j int) { hs[i], hs[j] = hs[j], hs[i] })
 		w.stats.Reach["prune_list_with_uncached_hashes"]++
 	}
@@ -283,15 +290,40 @@ func (w *World) opIngest(n *Node, s *Step) {
 	if len(hs) == 0 {
 		return
 	}
+	ps := s.Seed ^ uint64(n.idx)*0x16e57
+	for _, pk := range s.Picks {
+		ps = mix64(ps ^ uint64(pk))
+	}
+	ir := SubRng(ps, "ingest-shape")
+	if L := st.Layout(); ir.Pct(30) {
+		// the untracked sibling of a remembered leaf: every proof position of the
+		// request is already held, nothing has to be fetched, yet the leaf itself is new
+		for _, h := range sortedKeys(n.remembered) {
+			ro, ok := L.LeafAt[h]
+			if !ok || L.IsRoot(ro) {
+				continue
+			}
+			if sh, ok := L.Nodes[ro.Sib()]; ok && L.IsLeaf[ro.Sib()] && !n.remembered[sh] {
+				hs = []H{sh}
+				w.stats.Reach["ingest_sibling_of_remembered_leaf"]++
+				break
+			}
+		}
+	}
 	hs = padH(hs)
 	pr, _ := st.Layout().CanonProof(hs)
+	if s.Arg != 2 && ir.Pct(25) {
+		// an accepted encoding with unused trailing hashes
+		pr.Proof = append(append([]H(nil), pr.Proof...), H{0x1e, 0x55, byte(ir.Next())})
+		w.stats.Reach["ingest_proof_with_unused_hashes"]++
+	}
 	pr.Targets, pr.Proof = padU(pr.Targets), padH(pr.Proof)
 	w.stats.Events++
 	n.ctxTarget, n.ctxSeed = n.at, mix64(w.sc.Seed^uint64(w.stats.Events)*0x9e37^uint64(n.idx)<<32)
 	n.hasCacheOps = true
 	var err error
 	switch {
-	case s.Arg == 2 && w.on("c14proto"):
+	case s.Arg == 2:
 		w.stats.Faults["ingest_partial_proof"]++
 		w.logf("%s: fetch+VerifyPartialProof(remember) %d leaves", n.name, len(hs))
 		n.ops = append(n.ops, nodeOp{kind: "ingest", hashes: hs, arg: 1})
@@ -343,7 +375,8 @@ func (w *World) opReimport(n *Node, s *Step) {
 		return
 	}
 	n.ch = padH(hs)
-	n.cp.Targets, n.cp.Proof = padU(pr.Targets), padH(pr.Proof)
+	up := n.upProof(pr, st.N) // (a node embedded at a big offset holds big positions)
+	n.cp.Targets, n.cp.Proof = padU(up.Targets), padH(up.Proof)
 	w.stats.Reach["light_reimport_unsorted"]++
 	w.logf("%s: re-imported cached proof for %d leaves in prover order", n.name, len(hs))
 }
